@@ -46,7 +46,7 @@ TABLE = [
     (("C01",), "Cell._init_morph_jaxley_spsolve", (ANY, "compute_levels"), "levels of the branch tree"),
     (("C01",), "Cell._init_morph_jaxley_spsolve", (ANY, "remap_index_to_masked"), "padding map of unequal branches"),
     (("C01", "C12"), "Network._init_morph_jaxley_spsolve", (ANY, "merge_cells"), "per-cell level tables are merged"),
-    (("C01",), "Network._init_morph_jaxley_spsolve", (ANY, "remap_index_to_masked"), "padding map of unequal branches"),
+    (("C01", "C12", "C02"), "Network._init_morph_jaxley_spsolve", (ANY, "remap_index_to_masked"), "padding map of unequal branches: the network's padded layout differs from the cells' own"),
     # --- re-discretisation (C13, C19)
     (("C13", "C19"), "Module.set_ncomp", ("self.base", "_update_local_indices"), "local indices after the rows changed"),
     (("C13", "C19", "C01"), "Module.set_ncomp", ("self.base", "_initialize"), "solver structures after the rows changed"),
